@@ -31,11 +31,13 @@ import RtoscModel.Proofs.PrettyTokFloat
 import RtoscModel.Proofs.PrettyTokTimeEnd
 import RtoscModel.Proofs.PrettyTokTimeFrac
 import RtoscModel.Proofs.PrettyTokArray
+import RtoscModel.Proofs.PrettyRunConst
+import RtoscModel.Proofs.PrettyRunInt
 import RtoscModel.ArgVal.Expand
 import RtoscModel.Generated.PrettyConst
 namespace Rtosc.Pretty
 open Rtosc Rtosc.Libc
-open Rtosc.ArgVal (Cell Item flatList expandList)
+open Rtosc.ArgVal (Cell Item flatList expandList Val)
 
 deriving instance DecidableEq for Except
 
@@ -418,6 +420,200 @@ theorem array_roundtrip_nocompress (opt : POpt) (hopt : OptOK opt) (hc : opt.com
     RoundTrips opt [.arr ety es] :=
   print_scan_roundtrip_nocompress opt hopt hc [.arr ety es] (by
     intro x hx; simp only [List.mem_singleton] at hx; subst hx; exact ⟨hd, hm⟩)
+
+/-! ### Tier 3: range compression, for lists that are one run -/
+
+
+theorem expandList_replicate_val (c : Cell) (hsc : c.isScalar = true) (n : Nat) :
+    expandList (List.replicate n (Item.val c)) = some (List.replicate n (Val.sc c)) := by
+  induction n with
+  | zero => simp [expandList]
+  | succ k ih =>
+    simp only [List.replicate_succ, expandList, Item.expand, hsc, ↓reduceIte, ih]
+    rfl
+
+theorem expandList_rep (c : Cell) (hsc : c.isScalar = true) (n : Nat) (hn : 1 ≤ n) :
+    expandList [Item.rep n (Item.val c)] = some (List.replicate n (Val.sc c)) := by
+  simp [expandList, Item.expand, hsc, hn]
+
+
+
+theorem feq_self_f32 (b : UInt32) (h : f32.expField b.toNat ≠ 255) : ArgVal.f32.feq b.toNat b.toNat = true := by
+  have hb : b.toNat < 4294967296 := b.toNat_lt
+  simp only [FFmt.expField, FFmt.mag, FFmt.signBit, f32] at h
+  simp only [ArgVal.FFmt.feq, ArgVal.FFmt.isNaN, ArgVal.FFmt.mag, ArgVal.FFmt.signBit, ArgVal.FFmt.infBits,
+    ArgVal.FFmt.expMax, ArgVal.f32, Bool.and_eq_true, Bool.not_eq_true', beq_self_eq_true,
+    and_true, and_self]
+  norm_num at h ⊢
+  omega
+
+theorem feq_self_f64 (b : UInt64) (h : f64.expField b.toNat ≠ 2047) : ArgVal.f64.feq b.toNat b.toNat = true := by
+  have hb : b.toNat < 18446744073709551616 := b.toNat_lt
+  simp only [FFmt.expField, FFmt.mag, FFmt.signBit, f64] at h
+  simp only [ArgVal.FFmt.feq, ArgVal.FFmt.isNaN, ArgVal.FFmt.mag, ArgVal.FFmt.signBit, ArgVal.FFmt.infBits,
+    ArgVal.FFmt.expMax, ArgVal.f64, Bool.and_eq_true, Bool.not_eq_true', beq_self_eq_true,
+    and_true, and_self]
+  norm_num at h ⊢
+  omega
+
+/-- every scalar of the property's domain is identical to itself for the printer's run detection -/
+theorem selfIdentical_of_domain (opt : POpt) (c : Cell) (h : ScalarInDomain opt c) : SelfIdentical c := by
+  cases c with
+  | int ty v => exact selfIdentical_int ty v
+  | huge v => exact selfIdentical_huge v
+  | time v => exact selfIdentical_time v
+  | flt b => exact selfIdentical_flt b (feq_self_f32 b h.2)
+  | dbl b => exact selfIdentical_dbl b (feq_self_f64 b h.2)
+  | midi a b c d => exact selfIdentical_midi a b c d
+  | str ty s =>
+    cases s with
+    | none => exact absurd h (by simp [ScalarInDomain])
+    | some s => exact selfIdentical_str ty s
+  | blob d => exact selfIdentical_blob d
+  | flag f => exact selfIdentical_flag f
+  | arr ety len => exact absurd h (by simp [ScalarInDomain])
+  | rep n hd => exact absurd h (by simp [ScalarInDomain])
+
+theorem flatList_rep_val (n : Nat) (c : Cell) : flatList [Item.rep n (Item.val c)] = [Cell.rep n 0, c] := by
+  simp [flatList, Item.flat]
+
+/-- **range_roundtrip_const** (tier 3): a list of `n ≥ 5` copies of one scalar value of the domain,
+    compression on, is printed as `nxA` and scanned as the repetition block; its expansion is
+    the original list. -/
+theorem range_roundtrip_const (opt : POpt) (hopt : OptOK opt) (hc : opt.compress = true) (c : Cell)
+    (hd : ScalarInDomain opt c) (hm : ¬ MidnightTime c)
+    (n : Nat) (hn5 : 5 ≤ n) (hn : n ≤ 2147483647) :
+    RoundTrips opt (List.replicate n (Item.val c)) := by
+  have hs := (simpleVal_of_domain opt hopt c hd hm).token
+  obtain ⟨st, ret, h1, h2, h3, h4⟩ :=
+    const_run_roundtrip opt hc c hs.1 hs.2 (selfIdentical_of_domain opt c hd) n hn5 hn
+  refine ⟨st, ret, [Item.rep n (Item.val c)], ?_, h2, ?_, ?_, ?_⟩
+  · have : flatList (List.replicate n (Item.val c)) = List.replicate n c := by
+      have := flatList_vals (List.replicate n c)
+      simpa using this
+    rw [this]; exact h1
+  · rw [flatList_rep_val]; simpa using h3
+  · rw [flatList_rep_val]; simpa using h4
+  · rw [expandList_rep c hs.1 n (by omega), expandList_replicate_val c hs.1 n]
+
+
+
+theorem wrapI32_id (v : Int) (h1 : -2147483648 ≤ v) (h2 : v ≤ 2147483647) : ArgVal.wrapI32 v = v := by
+  unfold ArgVal.wrapI32; omega
+
+theorem rangeVal_int (d a : Int) (i : Nat)
+    (hm : -2147483648 ≤ (i : Int) * d ∧ (i : Int) * d ≤ 2147483647)
+    (hs : -2147483648 ≤ a + (i : Int) * d ∧ a + (i : Int) * d ≤ 2147483647) :
+    ArgVal.rangeVal (Cell.int .i d) (Cell.int .i a) i = .ok (Cell.int .i (a + (i : Int) * d)) := by
+  simp [ArgVal.rangeVal, ArgVal.fromInt, ArgVal.mult, ArgVal.add, ArgVal.Cell.type, wrapI32_id _ hm.1 hm.2,
+    wrapI32_id _ hs.1 hs.2]
+
+theorem rangeVals_int (d a : Int) : ∀ (m i : Nat),
+    (∀ k : Nat, i ≤ k → k < i + m →
+      (-2147483648 ≤ (k : Int) * d ∧ (k : Int) * d ≤ 2147483647) ∧
+      (-2147483648 ≤ a + (k : Int) * d ∧ a + (k : Int) * d ≤ 2147483647)) →
+    ArgVal.rangeVals (Cell.int .i d) (Cell.int .i a) i m =
+      some ((List.range m).map (fun (j : Nat) => Val.sc (Cell.int .i (a + ((i + j : Nat) : Int) * d)))) := by
+  intro m
+  induction m with
+  | zero => intro i _; simp [ArgVal.rangeVals]
+  | succ k ih =>
+    intro i h
+    have h0 := h i (Nat.le_refl _) (by omega)
+    have hrest := ih (i + 1) (fun k' hk1 hk2 => h k' (by omega) (by omega))
+    simp only [ArgVal.rangeVals, rangeVal_int d a i h0.1 h0.2, hrest]
+    rw [List.range_succ_eq_map]
+    simp only [List.map_cons, List.map_map, Nat.add_zero]
+    congr 2
+    apply List.map_congr_left
+    intro j _
+    simp only [Function.comp]
+    have : i + 1 + j = i + Nat.succ j := by omega
+    rw [this]
+
+
+
+/-- the arithmetic run `a, a+d, …` of `n` int32 values as an argument list -/
+def arithItems (a d : Int) (n : Nat) : List Item := (arithRun a d n).map Item.val
+
+theorem expandList_vals (cs : List Cell) (h : ∀ c ∈ cs, c.isScalar = true) :
+    expandList (cs.map Item.val) = some (cs.map Val.sc) := by
+  induction cs with
+  | nil => simp [expandList]
+  | cons c r ih =>
+    simp only [List.map_cons, expandList, Item.expand, h c (by simp), ↓reduceIte,
+      ih (fun x hx => h x (by simp [hx]))]
+    rfl
+
+theorem expandList_arithItems (a d : Int) (n : Nat) :
+    expandList (arithItems a d n) =
+      some ((List.range n).map (fun (k : Nat) => Val.sc (Cell.int .i (a + (k : Int) * d)))) := by
+  unfold arithItems arithRun
+  rw [expandList_vals _ (by intro c hc; simp only [List.mem_map] at hc; obtain ⟨k, _, rfl⟩ := hc; rfl)]
+  simp [List.map_map, Function.comp]
+
+/-- **range_roundtrip_int** (tier 3): a list that is one arithmetic run of `n ≥ 5` int32 values
+    (step `d ≠ 0`; the run and the step behind it stay inside int32, and it is not wider than the
+    positive range — fixes C10-11, C10-15), compression on, is printed as `a ... z` / `a b ... z`
+    and scanned as a range whose expansion is the original list. -/
+theorem range_roundtrip_int (opt : POpt) (hc : opt.compress = true) (a d : Int) (n : Nat) (hn : 5 ≤ n) (hd : d ≠ 0)
+    (hrange : ∀ k : Nat, k ≤ n → -2147483648 ≤ a + (k : Int) * d ∧ a + (k : Int) * d ≤ 2147483647)
+    (hwidth : ((n : Int) - 1) * d.natAbs ≤ 2147483647)
+    (hn32 : (d = 1 ∨ d = -1) → (n : Int) ≤ 2147483647) :
+    RoundTrips opt (arithItems a d n) := by
+  obtain ⟨st, ret, cells, h1, h2, h3, h4, hcells⟩ := int_run_roundtrip opt hc a d n hn hd hrange hwidth hn32
+  have hflat : flatList (arithItems a d n) = arithRun a d n := flatList_vals _
+  have hmul : ∀ k : Nat, k + 1 ≤ n → -2147483648 ≤ (k : Int) * d ∧ (k : Int) * d ≤ 2147483647 := by
+    intro k hk
+    have := mul_bound n d hwidth k (by omega)
+    omega
+  by_cases hu : d = 1 ∨ d = -1
+  · -- `a ... z`
+    rw [if_pos hu] at hcells
+    refine ⟨st, ret, [Item.range n (Cell.int .i d) (Cell.int .i a)], ?_, h2, ?_, ?_, ?_⟩
+    · rw [hflat]; exact h1
+    · simpa [flatList, Item.flat, hcells] using h3
+    · have : flatList [Item.range n (Cell.int .i d) (Cell.int .i a)] = cells := by simp [flatList, Item.flat, hcells]
+      rw [this]; exact h4
+    · rw [expandList_arithItems]
+      simp only [expandList, Item.expand, ArgVal.Cell.isScalar, and_self, show 1 ≤ n from by omega, ↓reduceIte]
+      rw [rangeVals_int d a n 0 (by
+        intro k _ hk
+        exact ⟨hmul k (by omega), hrange k (by omega)⟩)]
+      simp
+  · -- `a b ... z`
+    rw [if_neg hu] at hcells
+    have hn1 : ((n - 1 : Nat) : Int) = (n : Int) - 1 := by omega
+    refine ⟨st, ret, [Item.val (Cell.int .i a), Item.range (n - 1) (Cell.int .i d) (Cell.int .i (a + d))], ?_, h2, ?_, ?_, ?_⟩
+    · rw [hflat]; exact h1
+    · simpa [flatList, Item.flat, hcells, hn1] using h3
+    · have : flatList [Item.val (Cell.int .i a), Item.range (n - 1) (Cell.int .i d) (Cell.int .i (a + d))] = cells := by
+        simp [flatList, Item.flat, hcells, hn1]
+      rw [this]; exact h4
+    · rw [expandList_arithItems]
+      simp only [expandList, Item.expand, ArgVal.Cell.isScalar, and_self, show 1 ≤ n - 1 from by omega, ↓reduceIte]
+      rw [rangeVals_int d (a + d) (n - 1) 0 (by
+        intro k _ hk
+        refine ⟨hmul k (by omega), ?_⟩
+        have := hrange (k + 1) (by omega)
+        have e : a + d + (k : Int) * d = a + ((k + 1 : Nat) : Int) * d := by
+          rw [Int.natCast_add, Int.add_mul]; simp; omega
+        rw [e]; exact this)]
+      simp only [Nat.zero_add, List.cons_append, List.nil_append, Option.some.injEq]
+      obtain ⟨m, rfl⟩ : ∃ m, n = m + 1 := ⟨n - 1, by omega⟩
+      simp only [Nat.add_sub_cancel]
+      rw [List.range_succ_eq_map]
+      simp only [List.map_cons, List.map_map, Int.natCast_zero, Int.zero_mul, Int.add_zero, List.cons.injEq, true_and]
+      rw [List.append_nil]
+      apply List.map_congr_left
+      intro j _
+      simp only [Function.comp]
+      congr 2
+      rw [show ((Nat.succ j : Nat) : Int) = (j : Int) + 1 from by simp, Int.add_mul]
+      omega
+
+
+
 
 /-! ### The constants and tables extracted from the source (Generated/PrettyConst.lean) -/
 
